@@ -52,6 +52,7 @@ func init() {
 	reg(propCfg{ID: "C04", Level: "exploration", Quick: q(16, 4000), Thorough: th(16, 100000)})
 	reg(propCfg{ID: "C18", Level: "exploration", Quick: q(16, 3000), Thorough: th(16, 80000)})
 	reg(propCfg{ID: "C05", Level: "exploration", Quick: q(16, 3000), Thorough: th(16, 80000)})
+	reg(propCfg{ID: "C06", Level: "exploration", Quick: q(16, 3000), Thorough: th(16, 50000)})
 	reg(propCfg{ID: "C11", Level: "exploration", Quick: q(16, 5000), Thorough: th(16, 60000)})
 }
 
